@@ -404,6 +404,7 @@ def emit(d, root, rng, mode):
     """history for value root: list of op token lists + list of (op index, forced value).  Values are emitted by need, in
     dependency order, so rewritten DAGs (with appended values) work too."""
     ops, forced, hof = [], [], {}     # hof: value -> handle
+    nchunk = [0]
     nh = [0]
     order = []
     seen = set()
@@ -456,8 +457,10 @@ def emit(d, root, rng, mode):
         isop = x[0] in ("B", "O")
         if mode == "eager" and isop:
             force(v)
-        if mode == "chunk" and isop and v != root and (pos + 1) % 600 == 0:
-            force(v)          # every 300th operator of a long chain: the pieces stay below kMaxUnionSize
+        if mode == "chunk" and isop and v != root:
+            nchunk[0] += 1
+            if nchunk[0] % 300 == 0:
+                force(v)      # every 300th operator of a long chain: the pieces stay below kMaxUnionSize
         if mode == "mixed":
             if isop and rng.random() < 0.3:
                 force(v)
@@ -572,29 +575,42 @@ def build_cases(rng, ndags):
 SLAB_FR = [[13, 14, 15, 17, 18, 19], [21, 22, 23, 25, 26, 27], [28, 29, 30, 31, 16, 20]]
 
 
-def gen_big(rng, n, shape):
+def gen_big(rng, n, shape, with_kernel=False):
     """n cheap leaves reaching one BatchUnion (kMaxUnionSize and its index arithmetic): unit boxes on a sparse lattice
     (pairwise disjoint boxes, so one big Compose set), some of them with an overlapping partner, and a few slabs that
     overlap many boxes (each forms its own bounding-box-disjoint set).  shape: 'flat' BatchBoolean(Add), 'chain' of
     operator+ on temporaries, 'sub' big block minus all of them.  Returns (dag, root, variants)."""
     W = max(8, int(n ** 0.5) + 2)
-    leaves = []
-    nsl = rng.randint(2, 3)
-    npart = max(2, n // 12)
+    nsl = 3
+    npart = max(2, n // 40)
     ncube = n - nsl - npart
     H = ncube // W + 1
+    # a common region R that every slab contains and where the partner boxes sit: the slabs overlap each other, the boxes
+    # and the partners, so each slab ends up ALONE in a set of the partition (the singleton branch of BatchUnion)
+    ra = rng.randint(1, W - 6); rb = ra + 4
+    rc = rng.randint(0, max(0, H - 4)); re_ = rc + 3
+    cubes = []
     for i in range(ncube):
         cx, cy = i % W, i // W
-        leaves.append(((64 * 2 * cx + 5, 64 * 2 * cy + 6, 7), (64 * (2 * cx + 1) + 9, 64 * (2 * cy + 1) + 10, 64 + 11)))
-    for i in rng.sample(range(ncube), npart):
+        cubes.append(((64 * 2 * cx + 5, 64 * 2 * cy + 6, 7), (64 * (2 * cx + 1) + 9, 64 * (2 * cy + 1) + 10, 64 + 11)))
+    inR = [i for i in range(ncube) if ra <= i % W < rb and rc <= i // W < re_]
+    others = [i for i in range(ncube) if i not in set(inR)]
+    for i in (inR + rng.sample(others, max(0, npart - len(inR))))[:npart]:
         cx, cy = i % W, i // W
-        leaves.append(((64 * 2 * cx + 37, 64 * 2 * cy + 38, 39), (64 * (2 * cx + 1) + 41, 64 * (2 * cy + 1) + 42, 64 + 43)))
+        cubes.append(((64 * 2 * cx + 37, 64 * 2 * cy + 38, 39), (64 * (2 * cx + 1) + 41, 64 * (2 * cy + 1) + 42, 64 + 43)))
+    rng.shuffle(cubes)
+    slabs = []
     for s_ in range(nsl):
         f = SLAB_FR[s_]
-        a = rng.randint(0, 2 * W - 6); b = a + rng.randint(3, 6)
-        c = rng.randint(0, max(1, 2 * H - 6)); e = c + rng.randint(2, 5)
-        leaves.append(((64 * a + f[0], 64 * c + f[1], f[2]), (64 * b + f[3], 64 * e + f[4], 64 + f[5])))
-    rng.shuffle(leaves)
+        a = 2 * ra - rng.randint(0, 3); b = 2 * rb + rng.randint(0, 3)
+        c = 2 * rc - rng.randint(0, 2); e = 2 * re_ + rng.randint(0, 2)
+        slabs.append(((64 * a + f[0], 64 * c + f[1], f[2]), (64 * b + f[3], 64 * e + f[4], 64 + f[5])))
+    leaves = list(cubes)
+    if rng.random() < 0.5:
+        leaves += slabs                      # in the first chunk that BatchUnion takes (the LAST kMaxUnionSize children)
+    else:
+        for sl in slabs:
+            leaves.insert(rng.randrange(len(leaves) + 1), sl)
     # the interesting operands (own set) must also sit among the FIRST and the LAST kMaxUnionSize children
     vals = [("L", b) for b in leaves]
     ids = list(range(len(vals)))
@@ -630,20 +646,20 @@ def gen_big(rng, n, shape):
             v2.append(("O", 1, [acc] + ids[k:k + chunk])); acc = len(v2) - 1
         d2 = Dag(v2)
         variants = [("lazy_drop", d, root, "lazy_drop"), ("flat", d2, acc, "eager")]
-    if n <= 1500:
-        variants.append(("kernel", d, root, "kernel"))
+    if with_kernel:
+        variants.append(("kernel", d, root, "kernel"))     # n sequential Boolean3 calls on a growing mesh: seconds
     return d, root, variants
 
 
 def big_cases(rng, kmax, quick):
     """operand counts on both sides of kMaxUnionSize"""
-    plan = [(kmax - 1, "flat"), (kmax, "chain"), (kmax + 1, "flat"), (kmax + 1, "sub"), (kmax + 100, "chain"), (kmax + 100, "flat"),
+    plan = [(kmax - 1, "flat"), (kmax, "sub"), (kmax + 1, "flat"), (kmax + 1, "sub"), (kmax + 100, "chain"), (kmax + 100, "flat"),
             (2 * kmax + kmax // 2, "flat")]
     if not quick:
         plan += [(m, sh) for m in (kmax - 1, kmax, kmax + 1, kmax + 100, 2 * kmax + kmax // 2) for sh in ("flat", "chain", "sub")]
     cases = []
     for k, (m, sh) in enumerate(plan):
-        d, root, variants = gen_big(rng, m, sh)
+        d, root, variants = gen_big(rng, m, sh, with_kernel=(k == 2 or not quick and m <= kmax + 100))
         cases += dag_cases("big%d_%s_%d" % (k, sh, m), d, root, variants, rng, grid_vals=[root])
     return cases
 
@@ -696,6 +712,12 @@ def run(cx):
     cx.cov["constants_from_source"] = {"kMaxUnionSize": kmax}
     cx.obligation("translate:csg_tree.cpp kMaxUnionSize", kmax is not None and kmax >= 2,
                   "kMaxUnionSize not found in csg_tree.cpp or < 2 (the termination theorem of BatchUnion needs >= 2): %r" % kmax)
+    src = open(os.path.join(vp.REPO, "src/csg_tree.cpp")).read()
+    cx.cov["constants_from_source"]["BatchBoolean pairs per round"] = 4 if "for (size_t i = 0; i < 4 && heapNodes.size() > 1; i++)" in src else None
+    cx.obligation("translate:csg_tree.cpp BatchBoolean constants",
+                  "for (size_t i = 0; i < 4 && heapNodes.size() > 1; i++)" in src and "if (results.size() == 2)" in src
+                  and "if (results.size() == 1) return results.front();" in src and "if (results.size() == 0)" in src,
+                  "the literal thresholds of BatchBoolean (sizes 0/1/2 handled directly, 4 pairs per round) are no longer the ones ported in CsgDefs.bb_round/batch_boolean")
     mls = vp.coq_extract("ExtractC03", ["c03_model.ml"])
     drv = vp.ocaml_build("c03_driver", mls + [os.path.join(vp.ROOT, "extract/c03_driver.ml")])
     exe = vp.build_harness("c03_csg", "seq", link_lib=True)
@@ -713,7 +735,7 @@ def run(cx):
     rounds = [cx.pick(500, 20000)]
     r_i = 0
     while r_i < len(rounds):
-        check_round(cx, rng, rounds[r_i], exe, drv, kmax or 1000, total, rule)
+        check_round(cx, rng, rounds[r_i], exe, drv, kmax or 1000, total, rule, big=(r_i == 0))
         r_i += 1
         if r_i == 1 and cx.broken and not cx.violations:
             # the proof or the correspondence broke without a failing input: search with a larger budget
@@ -722,6 +744,9 @@ def run(cx):
     cx.cov.update({
         "evaluations": total["cases"], "forcing_calls_compared": total["forces"],
         "distinct_nontrivial": len(total["nontrivial"]),
+        "many_operand_plan": "operand counts kMaxUnionSize-1, kMaxUnionSize, +1, +100, x2.5 (kMaxUnionSize read from the source and given to the "
+                             "extracted model) reaching ONE BatchUnion as flat BatchBoolean(Add), operator+ chain on temporaries, collapsed subtrahends; "
+                             "lazy vs chunked/eager vs kernel-only; boxes on a sparse lattice + mutually overlapping slabs (each alone in its set)",
         "rule": "seeded generator of expression DAGs in general position (depth<=6, fan-out<=5, reuse under fresh transforms p=0.3) x histories "
                 "(lazy with drops, lazy keeping handles, eager, 2 random interleavings with copies/drops/repeated forcing, kernel-only, flattened, "
                 "(a-b)-c rewritten); non-trivial = a DAG whose runs contain at least one collapse decision AND one children vector shared by two nodes; distinct by DAG",
@@ -822,8 +847,12 @@ def status_witness(cx, exe, drv, kmax, rule):
 TWO_CODES = False
 
 
-def check_round(cx, rng, ndags, exe, drv, kmax, total, rule="first"):
+def check_round(cx, rng, ndags, exe, drv, kmax, total, rule="first", big=False):
     cases, tries = build_cases(rng, ndags)
+    if big:
+        bc = big_cases(rng, kmax, cx.quick())
+        total["dist"]["many_operand_cases"] = total["dist"].get("many_operand_cases", 0) + len(bc)
+        cases = bc + cases
     lines = [c["line"] for c in cases]
     kl = lambda l: l.split()[1] if l.startswith("CASE") else None
     ko = lambda l: l.split()[1] if l.startswith("END ") else None
